@@ -307,7 +307,7 @@ def _convert(N, a, f, case):
                 r["index_false"] = "to_incidence_matrix(index=False) differs from the matrix returned with index=True"
             I = I2
         if opt.get("labels") == "nodes":
-            R = xgi.from_incidence_matrix(I, nodelabels=rows)
+            R = xgi.from_incidence_matrix(I, nodelabels=np.array(rows, dtype=object) if opt.get("array") else rows)
         elif opt.get("labels") == "edges":
             R = xgi.from_incidence_matrix(I, edgelabels=np.array(cols, dtype=object) if opt.get("array") else cols)
         elif f == "incidence_labelled":
